@@ -420,6 +420,41 @@ fn judge_after_restart(
     if !obs.foreign.is_empty() {
         return Err(("foreign-file".into(), format!("{:?}", obs.foreign)));
     }
+    // a configured symlink leads to the file the restarted logger wrote to last
+    if let Some(link) = &sc.cfg.symlink {
+        let last = flw::msg_id(1, 0, sc.restart_records.saturating_sub(1), 12);
+        let holder = obs
+            .family
+            .iter()
+            .filter(|f| !f.entry.gz)
+            .find(|f| f.content.as_ref().is_ok_and(|c| String::from_utf8_lossy(c).contains(&last)))
+            .map(|f| sc.cfg.names.dir.join(&f.entry.name));
+        if let Some(holder) = holder {
+            let target = std::fs::read_link(link).ok().map(|t| {
+                if t.is_absolute() {
+                    t
+                } else {
+                    link.parent().map(|p| p.join(&t)).unwrap_or(t)
+                }
+            });
+            let same = target
+                .as_ref()
+                .and_then(|t| std::fs::canonicalize(t).ok())
+                .zip(std::fs::canonicalize(&holder).ok())
+                .is_some_and(|(a, b)| a == b);
+            if !same {
+                return Err((
+                    "symlink-stale-after-restart".into(),
+                    format!(
+                        "the symlink {} leads to {:?}, the last record of the restarted logger is in {}",
+                        link.display(),
+                        target,
+                        holder.display()
+                    ),
+                ));
+            }
+        }
+    }
     let (stream, _, files) = stream_with_twins(&obs).map_err(|e| ("twin-mismatch".to_string(), e))?;
     let mut ids: Vec<(u64, u64)> = Vec::new();
     for line in String::from_utf8_lossy(&stream).split('\n') {
